@@ -72,6 +72,43 @@ type SCase struct {
 	Other []byte `json:"other"`
 	// an unrestricted value (NaN, infinities, -0.0, undeclared enum numbers allowed): only compared through Equal
 	Wild []byte `json:"wild,omitempty"`
+	// > 0: instead of the steps on Value, decode encodings nested Deep levels through every self-recursive field
+	Deep int `json:"deep,omitempty"`
+}
+
+// oracleC11Deep: csproto.Unmarshal / GrpcCodec.Unmarshal accept exactly what the owning runtime's Unmarshal accepts
+// for messages nested c.Deep levels deep, and decode the same contents.
+func oracleC11Deep(c *SCase) (fail *ev.Failure) {
+	mt := typeByKey[c.Type]
+	if mt == nil {
+		return nil
+	}
+	rt := runtimes[mt.Info.Runtime]
+	defer func() {
+		if r := recover(); r != nil {
+			fail = ev.Failf(shimSig("panic-deep-unmarshal", c), "panic while decoding a message nested %d levels: %v", c.Deep, r)
+		}
+	}()
+	for i, b := range deepEncodings(mt.Desc, c.Deep) {
+		want := mt.New()
+		rerr := rt.unmarshal(b, want)
+		for _, how := range []string{"csproto.Unmarshal", "GrpcCodec.Unmarshal"} {
+			dst := mt.New()
+			var err error
+			if how == "csproto.Unmarshal" {
+				err = csproto.Unmarshal(b, dst)
+			} else {
+				err = csproto.GrpcCodec{}.Unmarshal(b, dst)
+			}
+			if (err == nil) != (rerr == nil) {
+				return ev.Failf(shimSig("deep-unmarshal-verdict-differs-from-runtime", c), "%s of a %d-byte message nested %d levels (recursive field #%d): %v; %s's own Unmarshal: %v", how, len(b), c.Deep, i, err, rt.name, rerr)
+			}
+			if err == nil && !rt.equal(dst, want) {
+				return ev.Failf(shimSig("deep-unmarshal-differs-from-runtime", c), "%s of a message nested %d levels decodes other contents than %s's own Unmarshal", how, c.Deep, rt.name)
+			}
+		}
+	}
+	return nil
 }
 
 type wktSpec struct {
@@ -151,6 +188,9 @@ func sameContent(c *SCase, rt *runtimeAPI, a, b any) bool {
 }
 
 func oracleC11(c *SCase) *ev.Failure {
+	if c.Deep > 0 {
+		return oracleC11Deep(c)
+	}
 	m, rt, flavour := c.newOf(c.Value)
 	other, _, _ := c.newOf(c.Other)
 	var fail *ev.Failure
@@ -564,7 +604,7 @@ func shimTypes() []*MsgType {
 	return out
 }
 
-const ruleC11 = "case = (message type: plain [no fast-marshal methods] and fast-marshal types of gogo / Google v1 (legacy) / Google v2 from the schema corpus, Google and gogo well-known types; value; a second value) -> differential against the OWNING runtime called directly: Unmarshal_rt(Marshal_cs(m)) == m, Unmarshal_cs(Marshal_rt(m)) == what the runtime's own Unmarshal gives (fresh and pre-populated destination), Size == len(Marshal) - also for a plain message that was marshaled, then modified -, Clone equal and not identical, Equal == the runtime's verdict (false across runtimes; also on unrestricted values with NaN / infinities / -0.0 and with one and the same message on both sides), Reset => empty, MarshalText == the runtime's text in the same process, GrpcCodec == package functions, MsgType == the runtime the type was generated for; unsupported values {nil, 0, \"\", struct{}, *int, []byte, pointer to a plain struct, map, func} x every entry point: documented error / zero result, no panic; first-use classification races are run in a -race binary that re-executes itself; non-trivial = a non-empty message of a type whose dispatch path is not the first probe (plain types), or an unsupported value; distinct by (type, value)"
+const ruleC11 = "case = (message type: plain [no fast-marshal methods] and fast-marshal types of gogo / Google v1 (legacy) / Google v2 from the schema corpus, Google and gogo well-known types; value; a second value) -> differential against the OWNING runtime called directly: Unmarshal_rt(Marshal_cs(m)) == m, Unmarshal_cs(Marshal_rt(m)) == what the runtime's own Unmarshal gives (fresh and pre-populated destination), Size == len(Marshal) - also for a plain message that was marshaled, then modified -, Clone equal and not identical, Equal == the runtime's verdict (false across runtimes; also on unrestricted values with NaN / infinities / -0.0 and with one and the same message on both sides), Reset => empty, MarshalText == the runtime's text in the same process, GrpcCodec == package functions, MsgType == the runtime the type was generated for; Marshal after a child message was modified in place; messages nested {99,100,101,150,1000,5000} levels through every self-recursive field: Unmarshal / GrpcCodec.Unmarshal accept and decode exactly what the owning runtime's Unmarshal does; unsupported values {nil, 0, \"\", struct{}, *int, []byte, pointer to a plain struct, map, func} x every entry point: documented error / zero result, no panic; first-use classification races are run in a -race binary that re-executes itself; non-trivial = a non-empty message of a type whose dispatch path is not the first probe (plain types), or an unsupported value; distinct by (type, value)"
 
 func TestC11(t *testing.T) {
 	rec := ev.New("C11", ruleC11)
@@ -589,6 +629,19 @@ func TestC11(t *testing.T) {
 		}
 	}
 	mine := shardTypes(shimTypes())
+	// deep nesting: every type with a self-recursive field x depths around the limits runtimes are known to use
+	for _, mt := range mine {
+		if len(deepEncodings(mt.Desc, 1)) == 0 {
+			continue
+		}
+		for _, depth := range []int{99, 100, 101, 150, 1000, 5000} {
+			c := &SCase{Type: mt.Key(), Deep: depth}
+			rec.Eval(1)
+			rec.NonTrivialEnum(1)
+			rec.Class(fmt.Sprintf("deep-nesting/%d", depth))
+			rec.Check(t, "scase", c, oracleC11(c))
+		}
+	}
 	var wktNames []string
 	for n := range wkts {
 		wktNames = append(wktNames, n)
